@@ -1367,6 +1367,43 @@ func scenarioForwardedReadToNewLeader(r *vh.Rand) (string, []string) {
 	return g.c.Header(), g.ops
 }
 
+// scenario 24: replica 3 learns a new term from a vote request it rejects (the candidate's log
+// is stale), so the term is persisted without a vote; it then grants its vote to another
+// candidate of that term - a state change that is the vote alone -, restarts, and is asked by
+// a third candidate of the same term.
+func scenarioVoteOnlyStateChange(r *vh.Rand) (string, []string) {
+	g := newScenarioGen(r, 5, uint64(6+r.Intn(3)), false, false)
+	if !g.elect(1, nil) {
+		return g.c.Header(), g.ops
+	}
+	// 5 misses the last entries
+	g.propose(1)
+	g.dropPool(func(m pb.Message) bool { return m.To == 5 || m.From == 5 })
+	g.settle(func(m pb.Message) bool { return m.To != 5 && m.From != 5 })
+	t0 := g.term(1)
+	g.dropPool(func(m pb.Message) bool { return true })
+	// 5, 2 and 4 time out for the same term; everything they send is held
+	for _, k := range []uint64{5, 2, 4} {
+		k := k
+		g.tickUntil(k, func() bool { return g.role(k) == 1 && g.term(k) == t0+1 }, 80)
+	}
+	if g.Stopped || g.role(5) != 1 || g.role(2) != 1 || g.role(4) != 1 {
+		return g.c.Header(), g.ops
+	}
+	rv := func(from, to uint64) func(m pb.Message) bool {
+		return func(m pb.Message) bool { return m.Type == pb.RequestVote && m.From == from && m.To == to }
+	}
+	g.settle(rv(5, 3)) // rejected: term learned, no vote
+	g.settle(rv(2, 3)) // granted: the vote alone changes
+	g.do("RESTART 3")
+	g.settle(rv(4, 3))
+	g.settle(func(m pb.Message) bool { return m.Type == pb.RequestVoteResp })
+	g.settle(rv(2, 1))
+	g.settle(func(m pb.Message) bool { return m.Type == pb.RequestVoteResp })
+	g.settle(nil)
+	return g.c.Header(), g.ops
+}
+
 var scenarios = []func(r *vh.Rand) (string, []string){
 	scenarioTransferWithUnappliedChange,
 	scenarioVoteRace, scenarioTransferRemove, scenarioDeposedLeaderRead, scenarioDelayedConfirmation,
@@ -1376,5 +1413,5 @@ var scenarios = []func(r *vh.Rand) (string, []string){
 	scenarioUnappliedChangesAndTimeout, scenarioRestartedLeaderPendingChange, scenarioStaleHigherTermReplica,
 	scenarioOnlyFullMemberRead, scenarioMatchingSnapshotBehindLog, scenarioSnapshotWithoutWitness,
 	scenarioQueuedReplicateAndTruncation, scenarioCommitAfterShrink,
-	scenarioRemovalWhileReadPending, scenarioForwardedReadToNewLeader,
+	scenarioRemovalWhileReadPending, scenarioForwardedReadToNewLeader, scenarioVoteOnlyStateChange,
 }
